@@ -115,6 +115,8 @@ func c16ScenarioHandshake(r *sim.Run) {
 	r.Probe("handshake/secrets-" + relName)
 	r.Logf("C16(a) path=%s secrets=%s len=%d clock=%d faulty-net=%v faults=%v c->s msgs=%v reads=%v s->c msgs=%v reads=%v", []string{"Server", "Listener"}[path], relName, slen, clock, faulty, faults, sizes[0], reads[1], sizes[1], reads[0])
 	r.Cover("handshake", fmt.Sprint(path, rel, slen, clock, faulty, faults, sizes, reads))
+	// pion's DTLS/SCTP goroutines run freely between quiescent points from here on
+	r.FreeRunning()
 
 	// clock: 0,1 = both ends derive their certificates on the same UTC day; 2,3 = midnight passes
 	// between the first and the second end's derivation
